@@ -109,6 +109,8 @@ def run(code, env, world=None, max_steps=20000, max_paths=4000, feas_ms=3000, st
                     stack.append(BV(len(code)) if tl is None else BV(len(code)) + tl)
                     pc += 1
                 elif name == "codecopy":
+                    if not w.writes:
+                        w = w.replace(writes=("memory-touched",))
                     w = _codecopy(code, args, w)
                     pc += 1
                 elif name in ("jump", "jumpi"):
@@ -198,7 +200,7 @@ def _codecopy(code, args, w):
             return _code_byte(code, s + conc(i), env)
     else:
         # symbolic offset (jump-table lookup): enumerate the feasible offsets
-        vals = Mx.enumerate_values(src, w.pc, limit=300)
+        vals = Mx.enumerate_values(src, w.pc, limit=1200)
         if vals is None:
             raise Unsupported("codecopy source offset not enumerable")
 
